@@ -837,6 +837,21 @@ func newVFixture(in VIn, scheme signature.SigningScheme, vc vcase) *vfixture {
 			key = int64(-70001) // COSE header labels may be integers: a critical one that nothing processes
 		}
 		fx.extAttrs = append(fx.extAttrs, signature.Attribute{Key: key, Critical: true, Value: "must-understand"})
+		if vc.sigMut%2 == 1 {
+			// the attribute of interest among several critical ones: two more, which a plugin that runs reports as processed (their
+			// names sort before and after the others) - every single one must have been processed
+			more := []string{"aa.verif.example/first", "zz.verif.example/last"}
+			for _, k := range more {
+				fx.extAttrs = append(fx.extAttrs, signature.Attribute{Key: k, Critical: true, Value: "must-understand too"})
+			}
+			if fx.plugin != nil {
+				if vc.sigMut%4 == 1 {
+					fx.plugin.processed = append(append([]string{}, more...), fx.plugin.processed...)
+				} else {
+					fx.plugin.processed = append(append([]string{more[1]}, fx.plugin.processed...), more[0])
+				}
+			}
+		}
 	}
 	return fx
 }
